@@ -24,6 +24,12 @@ def jobs():
                       defines=["PL=%d" % pl, "NATTR=%d" % nattr, "AN=%d" % an, "AV=%d" % av, "OBS=%d" % obs], unwind=20, tier=tier, group="L1-print-link",
                       desc="coap_print_link, every (offset, buflen) window; path %d, attr %s" % (pl, "none" if not nattr else "%d/%d" % (an, av)),
                       bounds={"path": pl, "attr_name": an if nattr else None, "attr_value": av if nattr else None, "observable": obs}))
+    js.append(Job("L1-print-link@p1-a1.1.1-obs1-osc", "C20/c20.c", "c20_l1_print_link", UNITS, extra_src=EXTRA,
+                  defines=["PL=1", "NATTR=1", "AN=1", "AV=1", "OBS=1", "OSC=1"], unwind=20, group="L1-print-link",
+                  desc="coap_print_link, observable OSCORE-only resource (;obs;osc markers), every window", bounds={"path": 1, "oscore_only": 1}))
+    js.append(Job("B1-wellknown@r2-f0-p1-a1.1-osc", "C20/c20.c", "c20_b1_wellknown", UNITS, extra_src=EXTRA,
+                  defines=["NRES=2", "FILTER=0", "PL=1", "NATTR=1", "AN=1", "AV=1", "OBS=0", "OSC=1"], unwind=24, group="B1-wellknown", timeout=1800, est_gb=4,
+                  desc="coap_print_wellknown_lkd, 2 OSCORE-only resources, every window", bounds={"resources": 2, "oscore_only": 1}))
     for tl in range(0, 6):
         for ql in range(1, 4):      # an empty pattern is a degenerate filter ('rt=') and not claimed
             js.append(Job("L2-match@t%d-q%d" % (tl, ql), "C20/c20.c", "c20_l2_match", UNITS, extra_src=EXTRA, defines=["TL=%d" % tl, "QL=%d" % ql],
